@@ -201,6 +201,35 @@ theorem C06_stores_chain_assign (cs : List Cls) (rt : CState) (l : Cls) (e0 : Ef
       rw [heq, get_set]
       simp [hm]
 
+/-! ## hook selection is by None / NO_OP / anything else -/
+
+/-- hook identities 700..899 stand for callable hook OBJECTS that are falsy (`__bool__` False / `__len__` 0) -/
+def Setter.falsyObject : Setter → Bool
+  | .user i => decide (700 ≤ i) && decide (i < 900)
+  | _ => false
+
+/-- **C06_selection_ignores_truthiness**: which fields get a hook, and whose hook it is — the field's own
+    `on_setattr` if given (not `None`; `NO_OP` = none), else the class-level one — is a function of
+    `None` / `NO_OP` / anything else only: replacing every hook object by any other hook object (`ρ` on
+    identities; in particular truthy objects by falsy ones and back) changes the hook table `sa_attrs`
+    by exactly that replacement and nothing else, normalisation included -/
+theorem C06_selection_ignores_truthiness (ρ : Nat → Nat) (attrs : List Field) (e : Eff) :
+    saAttrs (attrs.map (Field.rename ρ)) (normalise (attrs.map (Field.rename ρ)) (e.rename ρ)) =
+      (saAttrs attrs (normalise attrs e)).map (Entry.rename ρ) := by
+  rw [normalise_rename, saAttrs_rename]
+
+/-- a field-level hook that is given is the one in the table — whatever object it is — and never the class's -/
+theorem C06_field_hook_if_given (e : Eff) (a : Field) (l : List Setter) (h : a.onSet = .chain l) :
+    entryOf e a = some { field := a, hook := l } := by
+  unfold entryOf; rw [h]
+
+/-- non-vacuity: a falsy hook object on the field under a truthy class-level hook: the field's hook runs -/
+example :
+    let f : Field := { name := "x", tag := "x@0", conv := none, validators := 0, onSet := .chain [.user 800] }
+    Setter.falsyObject (.user 800) = true ∧ Setter.falsyObject (.user 50) = false ∧
+    saAttrs [f] (.bare (.user 50)) = [{ field := f, hook := [.user 800] }] := by
+  refine ⟨by decide, by decide, rfl⟩
+
 /-! ## hook expressions as trees -/
 
 /-- **C06_tree_runs_flat**: a hook expression of any shape — pipes nested in pipes at any position and depth —
